@@ -81,6 +81,26 @@ class Pair(FactAnalysis):
                 if xp is not None:
                     for q in self.equal_places(st, xp):
                         new.add(('MLE', tp, q))
+        # CliqueVector({cl: X[cl] - X[cl].max() for cl in X}): every table shifted by a scalar of its own.  A per-clique additive constant does not
+        # change the distribution (everything downstream normalises), so the marginals that belong to X belong to the shifted vector as well -
+        # provided the scalar is finite for a table with -inf cells: its max / logsumexp is, its mean is not
+        if isinstance(value, ast.Call) and U(value.func) == 'CliqueVector' and len(value.args) == 1 and isinstance(value.args[0], ast.DictComp):
+            dc = value.args[0]
+            if len(dc.generators) == 1 and not dc.generators[0].ifs and isinstance(dc.generators[0].iter, ast.Name) and isinstance(dc.value, ast.BinOp) \
+                    and isinstance(dc.value.op, ast.Sub) and U(dc.key) == U(dc.generators[0].target):
+                X, c = dc.generators[0].iter.id, U(dc.generators[0].target)
+                elem = '%s[%s]' % (X, c)
+                lt, rt = U(dc.value.left).replace(' ', ''), U(dc.value.right).replace(' ', '')
+                if lt == elem and rt in (elem + '.max()', elem + '.logsumexp()', elem + '.values.max()', 'np.max(%s.values)' % elem):
+                    xp = self.place(dc.generators[0].iter, st)
+                    for f in list(st.facts):
+                        if f[0] == 'SYNC' and xp is not None and f[1] in self.equal_places(st, xp):
+                            new.add(('SYNC', tp, f[2]))
+                elif lt == elem and rt in (elem + '.values.mean()', 'np.mean(%s.values)' % elem, elem + '.values.sum()', elem + '.values.min()', elem + '.values.mean()'):
+                    self.ctx.ob('pair-at-exit', self.fi, stmt, False,
+                                'every potential is shifted by `%s` before it is stored: for a table with a structural zero (-inf) that scalar is -inf, the '
+                                'feasible cells become +inf and the impossible ones NaN - the stored parameters no longer describe the stored marginals' % U(dc.value.right),
+                                construct='re-centred potentials')
         if vp is None and isinstance(value, (ast.BinOp, ast.UnaryOp)):
             for f in list(st.facts):
                 if f[0] == 'SYNCX' and f[1] == U(value):
